@@ -323,6 +323,17 @@ func Truthy(v *V) bool { return !(v.K == model.Null || (v.K == model.Bool && !v.
 
 // Eval evaluates e over the whole ordered context.
 func Eval(e *E, ctx []*V, env Env) ([]*V, error) {
+	out, err := eval1(e, ctx, env)
+	for _, v := range out {
+		if v == nil {
+			// an inconsistency of the reference itself: decline rather than judge with it
+			return nil, unspec("the reference yields a nil value for %s", e.Op)
+		}
+	}
+	return out, err
+}
+
+func eval1(e *E, ctx []*V, env Env) ([]*V, error) {
 	if len(ctx) == 0 {
 		switch e.Op {
 		case "lit", "var", "collect", "object", "bin", "as", "reduce":
@@ -364,7 +375,8 @@ func Eval(e *E, ctx []*V, env Env) ([]*V, error) {
 		return out, nil
 	case "var":
 		v, ok := env[e.S]
-		if !ok {
+		if !ok || v == nil {
+			// (nil: the generator's placeholder for a binding over an empty stream, whose body never runs)
 			return nil, unspec("unbound variable $%s", e.S)
 		}
 		if len(ctx) != 1 {
@@ -1218,6 +1230,9 @@ func evalBin(e *E, ctx []*V, env Env) ([]*V, error) {
 		}
 		for _, l := range L {
 			for _, r := range R {
+				if l == nil || r == nil {
+					return unspec("nil operand value")
+				}
 				v, err := binValue(op, l, r)
 				if err != nil {
 					return err
